@@ -170,7 +170,7 @@ func loadKnown(path string) (*KnownFile, error) {
 
 type MutantResult struct {
 	Name     string `json:"name"`
-	Status   string `json:"status"` // detected | missed | skipped | nocompile
+	Status   string `json:"status"` // detected | missed | skipped | nocompile; for behaviour-preserving refactorings: silent | false-alarm
 	Detail   string `json:"detail,omitempty"`
 	Expected string `json:"expected_rule,omitempty"`
 }
@@ -312,6 +312,19 @@ func (c *Check) Finish(verifDir string, explanation string, notDecided []string)
 		}
 		cov["mutants_detected"] = det
 		cov["mutants_applicable"] = app
+		sil, fa := 0, 0
+		for _, m := range c.mutants {
+			switch m.Status {
+			case "silent":
+				sil++
+			case "false-alarm":
+				fa++
+			}
+		}
+		if sil+fa > 0 {
+			cov["neutral_refactorings_silent"] = sil
+			cov["neutral_refactorings_false_alarm"] = fa
+		}
 	}
 	for k, v := range c.extra {
 		cov[k] = v
